@@ -4,6 +4,9 @@ from .. import core
 
 MAXK = 512
 KEYS = ['a', 'b', 'c', 'd', 'e', 'key-6', 'k7']
+WIDE_KEYS = KEYS + [f'z{i}' for i in range(80)]      # enough distinct keys for the thread-local table to rehash several times
+# operations during which the executing thread's collector cannot run (no registration of a new object)
+QUIET_OPS = {'tget', 'tmem', 'x', 'lookup', 'pub', 'perr', 'lock', 'trylock', 'winc', 'unguarded', 'rd', 'spawn', 'join', 'disabled'}
 ERRNOS = ['0', 'EINVAL', 'EDEADLK', 'EBUSY', 'EPERM', 'ESRCH', 'EAGAIN']
 NK = 6
 
@@ -32,11 +35,19 @@ class Th:
         self.nops = 0
         self.joined = False
         self.stack = set()       # own objects the harness holds on the thread's stack
+        self.mheld = set()       # workers whose Thread object this thread made with new(Thread, f) and keeps in a stack variable
+        self.maker = None        # the thread that made this thread's Thread object with new(Thread, f) (None: raw)
+        self.gone = False        # that Thread object has been finalised: the thread is never named again
 
-def gen_schedule(rng, nworkers, nevents, mode, flavour):
+def gen_schedule(rng, nworkers, nevents, mode, flavour, managed=0.0):
     """a file-order schedule that the mutex/join machine accepts (except for the deliberately disabled events of sched mode).
-    flavour: 'mixed' | 'locks' | 'gc' | 'exn' | 'work' """
+    flavour: 'mixed' | 'locks' | 'gc' | 'exn' | 'work'
+    managed: probability that main makes a worker's Thread object the documented way (`var x = new(Thread, f)`, op `newthr`)
+    before calling it.  The mark phase of main then walks that worker's thread-local table whenever it reaches `x`
+    (KF-C13-mark-foreign-tls): in free mode main therefore executes no operation that can collect between `spawn U` and
+    `join U` of such a worker (in sched mode the baton serialises the walk with the worker's writes). """
     free = mode == 'free'
+    keys = WIDE_KEYS if rng.random() < 0.3 else KEYS
     th = [Th(t) for t in range(nworkers + 1)]
     holder = {}                  # mutex -> tid (file-order simulation; sched mode only)
     lines = [f'M {mode}', f'N {nworkers}', f'S {rng.randrange(1 << 30)}']
@@ -51,12 +62,19 @@ def gen_schedule(rng, nworkers, nevents, mode, flavour):
     spawned = []
     n = 0
     def alive_objs(t): return sorted(t.alive)
-    def referenced(t, k):   # own object referenced from own TLS
-        return any(v == (t.tid, k) for v in t.tls.values())
+    def referenced(t, k):   # own object referenced from own TLS, or from the TLS of a thread whose Thread object t keeps on its stack
+        return any(v == (t.tid, k) for v in t.tls.values()) or \
+               any(v == (t.tid, k) for u in t.mheld for v in th[u].tls.values())
     def drop_unreferenced(t, old):
-        # an own object that was only reachable from thread-local storage is now garbage: never named again
-        if old and old[0] == t.tid and old[1] in t.alive and old[1] not in t.roots and old[1] not in t.stack and not referenced(t, old[1]):
-            t.alive.discard(old[1])
+        # an object that was only reachable from thread-local storage (of its owner, or of a thread whose Thread object its
+        # owner holds) is now garbage: never named again
+        if not old: return
+        o = th[old[0]]
+        if old[0] != t.tid and t.tid not in o.mheld: return
+        if old[1] in o.alive and old[1] not in o.roots and old[1] not in o.stack and not referenced(o, old[1]):
+            o.alive.discard(old[1])
+    def quiet_needed(t):    # free mode: t holds the Thread object of a worker that has been called and not yet joined by t
+        return free and any(th[u].phase != 'unborn' and not th[u].joined for u in t.mheld)
     def emit_end(t):
         # the thread-local table outlives the run (the Thread object may be called again): drop references to objects the
         # teardown is about to finalise
@@ -79,25 +97,36 @@ def gen_schedule(rng, nworkers, nevents, mode, flavour):
         if t.pending_ld is not None and rng.random() < 0.7:
             out(f'{T} st {t.pending_ld}'); t.pending_ld = None; n += 1; continue
         ops = [k for k, v in w.items() for _ in range(v)]
+        if quiet_needed(t): ops = [k for k in ops if k in QUIET_OPS] or ['join']
         op = rng.choice(ops)
         t.nops += 1
         if op == 'spawn':
             un = [u for u in th if u.phase == 'unborn']
             again = [u for u in th if u.phase == 'done' and u.joined]      # a joined Thread object is called again
             if T != 0 and free: continue
+            again = [u for u in again if not u.gone]
             if again and (not un or rng.random() < 0.4): u = rng.choice(again)
             elif un: u = un[0]
             else: continue
+            if T == 0 and u.phase == 'unborn' and rng.random() < managed and not quiet_needed(t):
+                # the documented usage: var x = new(Thread, f); call(x);  (only main does it in generated cases: a worker that
+                # returned while it holds x would free the Thread object under the running thread)
+                out(f'{T} newthr {u.tid}'); t.mheld.add(u.tid); u.maker = T; n += 1
             out(f'{T} spawn {u.tid}'); u.phase = 'ready'; u.joined = False; u.nops = 0; spawned.append(u.tid); n += 1
         elif op == 'join':
             if free and (T != 0 or t.held or t.try_open): continue      # a joiner that holds a Mutex the thread needs would deadlock
-            done = [u for u in th if u.phase == 'done' and not u.joined]
+            done = [u for u in th if u.phase == 'done' and not u.joined and not u.gone]
+            if quiet_needed(t):
+                # main is waiting for the workers whose Thread objects it holds: it joins them (blocking, in free mode) in turn
+                pend = [th[u] for u in sorted(t.mheld) if th[u].phase != 'unborn' and not th[u].joined]
+                done = [u for u in pend if u.phase == 'done']
+                if not done: continue
             if done:
                 u = rng.choice(done); out(f'{T} join {u.tid}'); u.joined = True; n += 1
-                if rng.random() < 0.8: out(f'{T} rd {u.tid}'); n += 1
+                if rng.random() < 0.8: out(f'{T} rd {u.tid}'); out(f'{T} rdo {u.tid}'); n += 2
             elif not free and rng.random() < 0.3:
                 u = rng.choice(th[1:]) if nworkers else None
-                if u and not u.joined: out(f'{T} join {u.tid}'); n += 1       # blocked or nothread
+                if u and not u.joined and not u.gone and u.tid != T: out(f'{T} join {u.tid}'); n += 1       # blocked or nothread (never join(current(Thread)): KF-C13-join-edeadlk)
         elif op == 'end':
             if T == 0 or t.held or t.try_open or t.pending_ld is not None or t.nops < 6: continue
             if rng.random() < 0.5: continue
@@ -124,26 +153,47 @@ def gen_schedule(rng, nworkers, nevents, mode, flavour):
                     t.stack.discard(k)
                     if not referenced(t, k): t.alive.discard(k)
             rng.shuffle(keep)
-            out(f'{T} gc ' + ' '.join(map(str, keep))); n += 1
+            tk = []
+            for u in sorted(t.mheld):
+                uu = th[u]
+                if not free and uu.phase == 'done' and uu.joined and rng.random() < 0.15:
+                    # x goes out of scope: this collection finalises the Thread object (Thread_Del frees the table); whatever
+                    # of t's objects was reachable only through that table is garbage now
+                    t.mheld.discard(u); uu.gone = True
+                    for v in list(uu.tls.values()):
+                        if v[0] == T and v[1] in t.alive and v[1] not in t.roots and v[1] not in t.stack and not referenced(t, v[1]): t.alive.discard(v[1])
+                else: tk.append(f'T{u}')
+            out(f'{T} gc ' + ' '.join(list(map(str, keep)) + tk)); n += 1
         elif op == 'churn':
             out(f'{T} churn {rng.choice([1, 5, 20, 60]) if not free else rng.choice([10, 50, 150, 400])}'); n += 1
         elif op == 'tset':
             own = [(T, k) for k in alive_objs(t)]
             foreign = [(u.tid, k) for u in th if u.tid != T and u.phase in ('running', 'done') for k in sorted(u.roots & u.alive)] if not free else []
-            c = own + foreign
+            held = []
+            if not free and t.maker is not None and T in th[t.maker].mheld:
+                # the thread that made this thread's Thread object keeps it on its stack: its mark phase walks this table, so
+                # its objects stay alive through it (what C13_noninterference_refuted is about); sched mode only
+                m = th[t.maker]; held = [(m.tid, k) for k in sorted(m.alive - m.roots)] * 3
+            c = own + foreign + held
             if not c: continue
-            v = rng.choice(c); key = rng.choice(KEYS)
-            if v[0] != T: th[v[0]].pinned.add(v[1])
+            v = rng.choice(c); key = rng.choice(keys)
+            if v[0] != T and v not in held: th[v[0]].pinned.add(v[1])
             old = t.tls.get(key); t.tls[key] = v; drop_unreferenced(t, old)
             out(f'{T} tset {key} {v[0]} {v[1]}'); n += 1
-        elif op == 'tget': out(f'{T} tget {rng.choice(KEYS)}'); n += 1
-        elif op == 'tmem': out(f'{T} tmem {rng.choice(KEYS)}'); n += 1
+        elif op == 'tget': out(f'{T} tget {rng.choice(keys)}'); n += 1
+        elif op == 'tmem': out(f'{T} tmem {rng.choice(keys)}'); n += 1
         elif op == 'trem':
-            key = rng.choice(KEYS); old = t.tls.pop(key, None); drop_unreferenced(t, old)
+            key = rng.choice(keys); old = t.tls.pop(key, None); drop_unreferenced(t, old)
             out(f'{T} trem {key}'); n += 1
         elif op == 'x': out(f'{T} x ' + gen_prog(rng, rng.randrange(1, 5), rng.randrange(1, 18))); n += 1
         elif op == 'lookup': out(f'{T} lookup {rng.randrange(3)} {rng.randrange(8)}'); n += 1
-        elif op == 'pub': out(f'{T} pub {rng.randrange(1, 100000)}'); n += 1
+        elif op == 'pub':
+            out(f'{T} pub {rng.randrange(1, 100000)}'); n += 1
+            r = sorted(t.roots & t.alive)
+            if T != 0 and r and rng.random() < 0.4:
+                # a result object for the joiner: a root (an object made with plain `new` is finalised by the thread's teardown
+                # before join returns: KF-C13-join-result-finalised), never deleted afterwards
+                k = rng.choice(r); t.pinned.add(k); out(f'{T} pubo {k}'); n += 1
         elif op == 'perr': out(f"{T} perr {rng.choice(['lock', 'trylock', 'unlock', 'join'])} {rng.choice(ERRNOS)}"); n += 1
         elif op == 'work':
             kind = rng.randrange(4); size = rng.choice([40, 120, 300]) if not free else rng.choice([200, 600, 1500])
@@ -217,8 +267,9 @@ def gen_schedule(rng, nworkers, nevents, mode, flavour):
             if rng.random() < 0.9: out(f'{t.tid} pub {rng.randrange(1, 100000)}')
             emit_end(t)
     for t in th[1:]:
-        if t.phase == 'done' and not t.joined: out(f'0 join {t.tid}'); out(f'0 rd {t.tid}'); t.joined = True
-    out('0 gc')
+        if t.phase == 'done' and not t.joined and not t.gone: out(f'0 join {t.tid}'); out(f'0 rd {t.tid}'); out(f'0 rdo {t.tid}'); t.joined = True
+    out('0 gc ' + ' '.join(f'T{u}' for u in sorted(th[0].mheld)))
+    if rng.random() < 0.5 and th[0].mheld: out('0 churn 40'); out('0 gc')        # x out of scope after every join: the Thread objects are finalised
     return lines
 
 def errmap_case():
@@ -278,12 +329,14 @@ class C13(Spec):
         for i in range(nsched):
             nw = rng.choice([1, 2, 2, 3, 4, 6, 8])
             fl = rng.choice(['mixed', 'mixed', 'locks', 'gc', 'exn', 'work'])
-            cs.append(Case(f'sched{i}', gen_schedule(rng, nw, rng.choice([60, 150, 300]) if quick else rng.choice([100, 300, 600]), 'sched', fl)))
+            cs.append(Case(f'sched{i}', gen_schedule(rng, nw, rng.choice([60, 150, 300]) if quick else rng.choice([100, 300, 600]), 'sched', fl,
+                                                     managed=rng.choice([0.0, 0.5, 1.0]))))
         nfree = (150 if quick else 1000) * boost
         for i in range(nfree):
             nw = rng.choice([2, 3, 4, 6, 8, 12, 15] if quick else [2, 4, 8, 12, 15, 16])
             fl = rng.choice(['mixed', 'locks', 'locks', 'gc', 'exn', 'work', 'work'])
-            cs.append(Case(f'free{i}', gen_schedule(rng, nw, rng.choice([80, 200, 400]) if quick else rng.choice([200, 400, 800]), 'free', fl)))
+            cs.append(Case(f'free{i}', gen_schedule(rng, nw, rng.choice([80, 200, 400]) if quick else rng.choice([200, 400, 800]), 'free', fl,
+                                                    managed=rng.choice([0.0, 0.5, 1.0]))))
         cs.append(Case('errmap', errmap_case()))
         return cs
     def nontrivial_items(self, case, c_out, m_out):
@@ -302,10 +355,24 @@ class C13(Spec):
             acc['op_' + p[3]] = acc.get('op_' + p[3], 0) + 1
             if len(p) > 4 and p[4] in ('blocked', 'dead', 'ub', 'bad', 'tried=0', 'nothread', 'KeyError', 'ValueError', 'ResourceError'):
                 acc['out_' + p[4]] = acc.get('out_' + p[4], 0) + 1
+        for l in core.lines_with('S ', m_out):
+            for kv in l.split():
+                for key in ('races=', 'not-isolated=', 'managed='):
+                    if kv.startswith(key) and kv[len(key):].isdigit(): acc['model_' + key[:-1]] = acc.get('model_' + key[:-1], 0) + int(kv[len(key):])
         for l in core.lines_with('I ', c_out):
             for kv in l.split():
                 if kv.startswith('workers='): acc['max_workers'] = max(acc.get('max_workers', 0), int(kv[8:]))
                 if kv.startswith('workloads='): acc['workloads'] = acc.get('workloads', 0) + int(kv[10:])
+    def compare(self, case, c_out, m_out):
+        d = core.first_divergence(c_out, m_out)
+        if d: return d
+        # safety net: a free-running case must not contain a step at which a collection walks the thread-local table of a live
+        # thread (the model's `races`, printed by the driver): that is the territory of KF-C13-mark-foreign-tls
+        if any(l.startswith('M free') for l in case.lines[:3]):
+            for l in core.lines_with('S ', m_out):
+                m = [kv for kv in l.split() if kv.startswith('races=')]
+                if m and m[0] != 'races=0': return (-1, '<generator>', f'free-running case in the territory of KF-C13-mark-foreign-tls: {l}')
+        return None
     def model_selfcheck(self, case, m_out):
         for l in core.lines_with('S ', m_out):
             if 'exclusion=false' in l: return f'the model run violates mutual exclusion on its own trace: {l}'
